@@ -167,7 +167,35 @@ def cmd_table():
                                                '; '.join((h.get('note') or 'missed at /verif ' + h.get('verif', '?')) for h in misses) or ''))
 
 
+def cmd_sweep(seeds, out):
+    """Detection rate: every kept change x the quick check of its property x several VERIF_SEEDs."""
+    res = {}
+    if os.path.exists(out):
+        res = json.load(open(out))
+    for sid in sorted(os.listdir(SEEDED)):
+        p = os.path.join(SEEDED, sid, 'meta.json')
+        if not os.path.exists(p):
+            continue
+        for seed in seeds:
+            if str(seed) in res.get(sid, {}):
+                continue
+            os.environ['VERIF_SEED'] = str(seed)
+            cmd_run(sid)
+            m = json.load(open(p))
+            c = [c for c in m['checks'] if c['property'] == m['property']][-1]
+            res.setdefault(sid, {})[str(seed)] = {'caught': c['caught'], 'exit': c['exit'], 'search': c.get('caught_by_seeded_search'),
+                                                  'regress': c.get('caught_by_regression_plans'), 'wall_s': c['wall_s'], 'first': c['first']}
+            json.dump(res, open(out, 'w'), indent=1, ensure_ascii=False)
+    n = sum(len(v) for v in res.values())
+    k = sum(1 for v in res.values() for r in v.values() if r['caught'])
+    ks = sum(1 for v in res.values() for r in v.values() if r.get('search'))
+    print('sweep: %d runs, %d caught (%d by the seeded search itself)' % (n, k, ks))
+
+
 def main():
+    if sys.argv[1] == 'sweep':
+        seeds = [int(x) for x in sys.argv[sys.argv.index('--seeds') + 1].split(',')]
+        return cmd_sweep(seeds, sys.argv[sys.argv.index('--out') + 1])
     if sys.argv[1] == 'table':
         if '--into-design' in sys.argv:
             import io
